@@ -10,6 +10,7 @@ TABLE = {
     "ll": "ls -l", "e": "echo", "a1": "a2 x", "a2": "echo y", "c1": "c2", "c2": "c1 z", "ls": "ls -F", "nb": "nice ", "nb2": "nb nb3 ", "nb3": "n3",
     "v": "X=1 cmd", "r": "cmd >f", "q": "echo 'q w'", "sub": "echo $(date) `d`", "self": "self", "t": "\ttab\t", "nl": "multi", "dd": "d1 d1", "d1": "D",
     "pip": "p1 | p2", "and": "t1 && t2", "sc": "s1; s2", "grp": "{ g1; }", "nn": "n1\nn2",
+    "xn": "nb", "xxn": "xn", "nx": "xn nb3",
     "cy": "echo $(cy)", "cb": "echo `cb2`", "cb2": "e $(cb)",
 }
 PLAIN = ["cmd", "foo", "bar", "x1"]
@@ -33,6 +34,8 @@ def expand(name, active=()):
             if w[0] in TABLE and w[0] not in active + (name,):
                 t2, _ = expand(w[0], active + (name,))
                 rest = " " + t2 + ((" " + w[1]) if len(w) > 1 else "")
+        elif b2 and not rest:
+            blank = True          # the replacing text ends in the blank of the inner value
         body = lead + t + rest
     return body + " ", blank
 
@@ -47,7 +50,7 @@ class AGen:
         if r.random() < 0.55:
             n = r.choice(list(TABLE))
             if n in ("pip", "and", "sc", "grp", "nn") and r.random() < 0.6:
-                n = r.choice(["ll", "e", "a1", "c1", "ls", "nb", "nb2", "v", "r", "q", "sub", "self", "t", "dd"])
+                n = r.choice(["ll", "e", "a1", "c1", "ls", "nb", "nb2", "v", "r", "q", "sub", "self", "t", "dd", "xn", "xxn", "nx"])
             if self.folded:
                 return n, TABLE[n].endswith((" ", "\t"))
             t, b = expand(n)
@@ -165,6 +168,11 @@ class P:
             ({"a": "if x", "b": "{ y", "c": "! z", "d": "then", "e": "done q", "k": "a w"},
              [("x=1 a", "x=1 if x"), (">f b", ">f { y"), ("x=1 c", "x=1 ! z"), ("2>&1 d", "2>&1 then"), ("x=1 e r", "x=1 done q r"), ("x=1 k", "x=1 if x w"),
               ("y=2 >g a; z", "y=2 >g if x; z")]),
+            # a value that ends in a blank-terminated alias value ends in that blank, whatever the chain's length
+            ({"N": "nice ", "L": "ls -l", "X": "N", "Y": "X", "P": "env ", "NT": "nice\t", "XT": "NT", "Q": "P X", "Z": "X "},
+             [("X L", "nice ls -l"), ("Y L", "nice ls -l"), ("P X L", "env nice ls -l"), ("{ X L; }", "{ nice ls -l; }"), ("V=1 X L", "V=1 nice ls -l"),
+              ("XT L", "nice ls -l"), ("Q L", "env nice ls -l"), ("Z L", "nice ls -l"), ("P Y L L", "env nice ls -l L"), ("a | Y L", "a | nice ls -l"),
+              ("X X L", "nice nice ls -l"), ("X Y L", "nice nice ls -l"), ("if X L; then Y L; fi", "if nice ls -l; then nice ls -l; fi")]),
             ({"W": "while ", "T": "true", "I": "if ", "TH": "then ", "E": "echo hi"},
              [("W T; do T; done", "while true; do true; done"), ("I T; TH E; fi", "if true; then echo hi; fi"), ("I T; then E; fi", "if true; then echo hi; fi")]),
         ):
